@@ -228,6 +228,27 @@ func runC14(c *ctx) error {
 				c.res.Hist("differ.env-namespace")
 			}
 		}
+		if st.Matrix != nil {
+			// every part of the matrix is signed content: an extra key, another dimension value, an adjustment
+			if s2 := ss.fresh(); s2 != nil && s2.Matrix != nil {
+				if s2.Matrix.RemainingFields == nil {
+					s2.Matrix.RemainingFields = map[string]any{}
+				}
+				s2.Matrix.RemainingFields["zz_extra_matrix_key"] = 1
+				differ("matrix gains an unknown key", s2, repo, copyEnv(penv))
+			}
+			if s2 := ss.fresh(); s2 != nil && s2.Matrix != nil && len(s2.Matrix.Setup) > 0 {
+				for _, d := range sortedKeysS(s2.Matrix.Setup) {
+					s2.Matrix.Setup[d] = append(s2.Matrix.Setup[d], "zz-extra-value")
+					break
+				}
+				differ("matrix dimension gains a value", s2, repo, copyEnv(penv))
+			}
+			if s2 := ss.fresh(); s2 != nil && s2.Matrix != nil {
+				s2.Matrix.Adjustments = append(s2.Matrix.Adjustments, &pipeline.MatrixAdjustment{With: pipeline.MatrixAdjustmentWith{"": "zz"}, Skip: true})
+				differ("matrix gains an adjustment", s2, repo, copyEnv(penv))
+			}
+		}
 		if len(st.Plugins) >= 2 && st.Plugins[0].FullSource() != st.Plugins[1].FullSource() {
 			s2 := ss.fresh()
 			s2.Plugins[0], s2.Plugins[1] = s2.Plugins[1], s2.Plugins[0]
